@@ -209,6 +209,10 @@ type stepResult struct {
 
 // compareStep compares csvq's answer to statement op (executed in reference state pre) with the reference outcome.
 func compareStep(op dml.Op, pre *dml.State, out *dml.Outcome, res drv.Result, obs []dml.TabSnap, obsErr error) stepResult {
+	if n, ok := op.(*dml.Nested); ok && n.Kind == "commit" {
+		// the COMMIT in front of the statement has been executed whether or not the statement then fails
+		pre = dml.Committed(pre)
+	}
 	cls := op.Class() + "@" + kindsOf(op, pre)
 	bad := func(what, msg string) stepResult {
 		sig := cls + ":" + what
@@ -469,7 +473,7 @@ func c05Search(c *core.Ctx, dir string, ops []dml.Op, depth int, label string) {
 }
 
 func c05Replay(c *core.Ctx, payload json.RawMessage) {
-	if c05ParallelReplay(c, payload) {
+	if c05ParallelReplay(c, payload) || c01AttrReplay(c, payload) {
 		return
 	}
 	var p c05Payload
